@@ -164,8 +164,10 @@ FILL = {'key_id': 'fill-id', 'access_key': 'fill-ak', 'region': 'fill-reg', 'hos
         'token': 'fill-token'}
 
 
-def run_main(argv, env, toml_text, root):
-    """One simulated process: fresh CLI/config modules, recorder instead of the command handler."""
+def run_main(argv, env, toml_text, root, location='explicit'):
+    """One simulated process: fresh CLI/config modules, recorder instead of the command handler.
+    location='default': the file sits at the default location (found through XDG_CONFIG_HOME) and no
+    --config is given."""
     import replicat.utils as _ru
     for m in ('replicat.__main__', 'replicat.utils.cli', 'replicat.utils.config'):
         sys.modules.pop(m, None)
@@ -173,6 +175,13 @@ def run_main(argv, env, toml_text, root):
         if hasattr(_ru, attr):
             delattr(_ru, attr)   # `from .utils import cli` would otherwise hand back the old module object
     cfgpath = root / f'cfg-{os.getpid()}.toml'
+    if location == 'default':
+        xdg = root / f'xdg-{os.getpid()}'
+        cfgpath = xdg / 'replicat' / 'replicat.toml'
+        cfgpath.parent.mkdir(parents=True, exist_ok=True)
+        if toml_text is None and cfgpath.exists():
+            cfgpath.unlink()
+        env = dict(env, XDG_CONFIG_HOME=str(xdg))
     if toml_text is not None:
         cfgpath.write_text(toml_text)
     old_env = dict(os.environ)
@@ -183,7 +192,9 @@ def run_main(argv, env, toml_text, root):
             del os.environ[k]
     os.environ.update(env)
     full = ['replicat'] + argv
-    if toml_text is not None:
+    if location == 'default':
+        pass    # found (or found missing) at the default location
+    elif toml_text is not None:
         full += ['--config', str(cfgpath)]
     else:
         full += ['--ignore-config']
@@ -227,8 +238,23 @@ def run_main(argv, env, toml_text, root):
     return rec
 
 
-def build_toml(profile_kv, default_kv, native):
+def split_variant(variant):
+    """variant: 'explicit' | 'default' | 'explicit+poison' | 'default+poison' -> (location, poisoned)"""
+    loc, _, poison = (variant or 'explicit').partition('+')
+    return loc, bool(poison)
+
+
+def poison_line(opt, root):
+    """A file-valued option naming a file that does not exist, placed first in the file's default section:
+    the run may be refused, but if it goes ahead every other option must still have its effective value."""
+    which = 'password-file' if opt.startswith('key') else 'key-file'
+    return f'{which} = "{root}/no-such-file-{os.getpid()}"'
+
+
+def build_toml(profile_kv, default_kv, native, poison=None):
     lines = []
+    if poison:
+        lines.append(poison)
     for k, v in default_kv.items():
         lines.append(f'{k} = {toml_value(v)}')
     if profile_kv is not None:
@@ -239,7 +265,9 @@ def build_toml(profile_kv, default_kv, native):
 
 
 def common_case(args):
-    opt, subset, command, native = args
+    opt, subset, command, native = args[:4]
+    variant = args[4] if len(args) > 4 else 'explicit'
+    location, poisoned = split_variant(variant)
     root = envroot()
     T = option_table(root)[opt]
     argv = [command] + [str(root / 'SRC') if a == 'SRC' else a for a in COMMANDS[command]]
@@ -256,8 +284,9 @@ def common_case(args):
     use_file = ('profile' in subset) or ('default' in subset)
     if 'profile' in subset:
         argv += ['--profile', 'prof']
-    toml = build_toml(prof if 'profile' in subset else None, dflt, native) if use_file else None
-    rec = run_main(argv, env, toml, root)
+    toml = build_toml(prof if 'profile' in subset else None, dflt, native,
+                      poison_line(opt, root) if poisoned else None) if use_file or poisoned else None
+    rec = run_main(argv, env, toml, root, location)
     # reference precedence
     want = T['builtin']
     for src in ('default', 'profile', 'env', 'cli'):
@@ -269,6 +298,10 @@ def common_case(args):
                 want = T['coerce'](raw)
     sig0 = {'option': opt, 'part': 'common'}
     detail = {'option': opt, 'sources': list(subset), 'command': command, 'native_toml': native}
+    if variant != 'explicit':
+        sig0['variant'] = detail['variant'] = variant
+    if poisoned and rec.get('outcome') != 'ok':
+        return []      # refusing to run with an unreadable file named in the configuration is fine
     if rec.get('outcome') != 'ok':
         return [(dict(sig0, what='run-failed', outcome=rec.get('outcome')), dict(detail, stderr=rec.get('stderr'), msg=rec.get('exc_msg')))]
     got = T['observe'](rec)
@@ -290,7 +323,9 @@ def _winner(subset):
 
 
 def backend_case(args):
-    backend, optkey, subset, command, native = args
+    backend, optkey, subset, command, native = args[:5]
+    variant = args[5] if len(args) > 5 else 'explicit'
+    location, poisoned = split_variant(variant)
     root = envroot()
     repo_arg, opts, prefix = BACKENDS[backend]
     values, builtin = opts[optkey]
@@ -317,11 +352,16 @@ def backend_case(args):
     use_file = ('profile' in subset) or ('default' in subset)
     if 'profile' in subset:
         argv += ['--profile', 'prof']
-    toml = build_toml(prof if 'profile' in subset else None, dflt, native) if use_file else None
-    rec = run_main(argv, env, toml, root)
+    toml = build_toml(prof if 'profile' in subset else None, dflt, native,
+                      poison_line('', root) if poisoned else None) if use_file or poisoned else None
+    rec = run_main(argv, env, toml, root, location)
     sig0 = {'option': f'{backend}.{optkey}', 'part': 'backend', 'native_toml': native and any(
         not isinstance(nat(values[s]), str) for s in subset if s in ('profile', 'default'))}
     detail = {'backend': backend, 'option': optkey, 'sources': list(subset), 'command': command, 'native_toml': native}
+    if variant != 'explicit':
+        sig0['variant'] = detail['variant'] = variant
+    if poisoned and rec.get('outcome') != 'ok':
+        return []
     want = builtin
     for src in ('default', 'profile', 'env', 'cli'):
         if src in subset:
@@ -380,11 +420,13 @@ def subsets(sources):
 
 def replay(case):
     if 'backend' in case:
-        vs = backend_case((case['backend'], case['option'], tuple(case['sources']), case['command'], case['native_toml']))
+        vs = backend_case((case['backend'], case['option'], tuple(case['sources']), case['command'], case['native_toml'],
+                           case.get('variant', 'explicit')))
     elif 'kind' in case:
         vs = exclusive_case((case['kind'], case['command']))
     else:
-        vs = common_case((case['option'], tuple(case['sources']), case['command'], case['native_toml']))
+        vs = common_case((case['option'], tuple(case['sources']), case['command'], case['native_toml'],
+                          case.get('variant', 'explicit')))
     return {'violations': [v[0] for v in vs]}
 
 
@@ -407,6 +449,13 @@ def main():
                 for native in (False, True):
                     for cmd in (cmds if t == 'thorough' else ['init', 'snapshot', 'ls']):
                         bcases.append((backend, opt, sub, cmd, native))
+    # the same file found at the default location instead of through --config, and a file whose first entry
+    # names an unreadable password/key file (the run may be refused; it must not go ahead with other entries dropped)
+    for variant in ('default', 'explicit+poison', 'default+poison'):
+        ccases += [c + (variant,) for c in ccases if len(c) == 4 and (c[2] == cmds[0] or t == 'thorough')
+                   and (('profile' in c[1] or 'default' in c[1]) or variant == 'default')]
+        bcases += [c + (variant,) for c in bcases if len(c) == 5 and (c[3] == 'snapshot' or t == 'thorough')
+                   and (('profile' in c[2] or 'default' in c[2]) or variant == 'default')]
     ecases = [(k, c) for k in ('cli:-p,-P', 'cli:--no-cache,--cache-directory', 'cli:--ignore-config,--config',
                                'file:key,key-file', 'file:password,password-file',
                                'file:password(default),password-file(profile)') for c in cmds[::3]] + \
